@@ -17,6 +17,53 @@ KANI = {
 }
 
 PROPS = {
+    'C01': {
+        'units': ['seq_solver'],
+        'kani': [],
+        'technique': 'Verus: search invariant + optimality theorem on the extracted real text of SequentialSolver, against trait-level contracts of diagram/fringe/cache',
+        'level_text': 'Deductive proof (Verus, unbounded) about the real text of custom/initialize/get_workload/process_one_node/maybe_update_best/enqueue_cutset/abort_search/maximize: an invariant (fringe content exact and bound-valid, open_by_layer == per-depth fringe counts, lower bound attained, optimum covered by a held sub-problem) is established and preserved, and maximize() ensures is_exact ==> reported value == optimum of the abstract DP and no value <==> infeasible. Holds for every Problem, every DecisionDiagram/Fringe/WidthHeuristic/ranking satisfying the trait contracts, non-caching Cache.',
+        'level_note': 'Assumed (not proved here): the DecisionDiagram::compile contract dd_post (= C06-C08 as interface; leaf-supported by the mdd units), the Fringe contract for SimpleFringe (BinaryHeap trusted), DP axioms lemma_exact_le_root/lemma_root/lemma_sol_le_root, optimum fits isize. Termination of maximize is NOT proved. Caching configurations are outside this theorem (see C09).',
+        'not_decided': ['termination of maximize()', 'solvers with a pruning cache (SimpleCache): theorem stated for caches with always_explores()',
+                        'rough-upper-bound and dominance pruning inside compile (behind the assumed DecisionDiagram contract)'],
+        'assumptions': ['DecisionDiagram::compile satisfies dd_post (trait-level contract, assumed)', 'Problem axioms: lemma_exact_le_root, lemma_root, lemma_sol_le_root, lemma_opt_fits (bodiless proof fns)',
+                        'R2: drain_cutset(callback) applies the callback once per cut-set element, in order, and does nothing else with it'],
+    },
+    'C02': {
+        'units': ['seq_solver'],
+        'kani': [],
+        'technique': 'Verus: ghost invariant sol_ok (stored solution replays to exactly the stored lower bound, present iff a bound is installed) on the extracted real solver text',
+        'level_text': 'Deductive proof (Verus) that every function of the sequential solver that writes best_lb/best_sol keeps: solution present <==> lower bound installed, solution value == best_lb (through the diagram contract: value and solution come from the same diagram state), Completion.best_value == best_value() == Some(best_lb) iff a solution is present, best_upper_bound == best_lower_bound after an uninterrupted run.',
+        'level_note': 'Feasibility of the decisions themselves is inherited from the assumed DecisionDiagram contract (best_exact_solution replays to best_exact_value); the final sort is a trusted permutation stub (R11). Parallel solver: see C03/C05 units when built.',
+        'not_decided': ['domain membership of each decision (behind the DecisionDiagram contract)', 'parallel solver part of the statement'],
+        'assumptions': ['sort_unstable_by_key permutes its slice (trusted stub sort_best_sol, R11)'],
+    },
+    'C05': {
+        'units': ['seq_solver'],
+        'kani': [],
+        'technique': 'Verus: Err arm of process_one_node / abort_search / maximize contracts: best_lb <= optimum <= best_ub at every possible cut-off point',
+        'level_text': 'Deductive proof (Verus): compile may fail at ANY call (Err arm), which over-approximates "cutoff fires at an arbitrary poll"; in that arm and after abort_search the lower bound is attained by a feasible solution and optimum <= best_ub; is_exact is reported iff no abort happened and then implies proved optimality.',
+        'level_note': 'Sequential solver only; the parallel clauses of C05 are decided by unit par_solver when built. Same assumed trait contracts as C01.',
+        'not_decided': ['parallel solver clauses'],
+        'assumptions': [],
+    },
+    'C14': {
+        'units': ['seq_solver'],
+        'kani': [],
+        'technique': 'Verus: set_primal contract + search invariant holds from any feasible primal, on the extracted real text',
+        'level_text': 'Deductive proof (Verus): set_primal replaces the incumbent iff value > best_lb; given a primal that is the value of a feasible solution the invariant of C01 holds after set_primal + initialize, hence maximize() ends with best_lb >= primal, is_exact ==> best_lb == optimum (= max(primal, optimum) since primal <= optimum).',
+        'level_note': 'Sequential solver; same assumed trait contracts and non-claims as C01.',
+        'not_decided': ['parallel solver', 'termination'],
+        'assumptions': [],
+    },
+    'C19': {
+        'units': ['seq_solver'],
+        'kani': [],
+        'technique': 'Verus: monotonicity obligations on get_workload / process_one_node / enqueue_cutset of the extracted real text',
+        'level_text': 'Deductive proof (Verus): best_lb never decreases (maybe_update_best, set_primal, process_one_node), the bound in force at successive compile calls never increases (get_workload: popped ub == new best_ub <= old best_ub, from the fringe contract and the invariant "every held ub <= best_ub" which enqueue_cutset maintains through ub.min), and at every exposed point best_lb <= optimum <= best_ub.',
+        'level_note': 'Monotonicity in the poll index additionally uses prefix determinism of the solver (no randomness on the code path), an assumption. "Eventually exact" needs termination, not proved.',
+        'not_decided': ['termination ("from some index on the run is exact")', 'prefix determinism is assumed, not proved'],
+        'assumptions': ['a run cut at poll k is a prefix of the run cut at poll k+1 (deterministic code path)'],
+    },
     'C13': {
         'units': ['width'],
         'kani': [],
@@ -44,5 +91,5 @@ NOT_APPLICABLE = {
     'C16': 'twelve whole example programs (parsers, clap, f64 bounds, per-problem admissibility theories): outside the reach of function contracts here; see DESIGN.md section 5',
     'C20': 'property about the syntax of a format!/Debug-built string: Verus has no str reasoning and Kani stubs format!; see DESIGN.md section 5',
 }
-for _p in ['C01','C02','C03','C04','C05','C06','C07','C08','C09','C10','C11','C12','C14','C15','C18','C19']:
+for _p in ['C03','C04','C06','C07','C08','C09','C10','C11','C12','C15','C18']:
     NOT_APPLICABLE.setdefault(_p, 'not built yet (deciding unit under construction; see DESIGN.md section 10)')
